@@ -89,6 +89,7 @@ type RefSpec struct {
 	Schemes  map[string]RefScheme
 	Templates []string
 	Cors     bool
+	schemaMemo map[string]*RefSchema
 }
 
 // NormBase: "a trailing slash on it is insignificant".
